@@ -322,19 +322,32 @@ fn plane_scale_exp(fam: Fam, i: usize, j: usize, e1: i32, e2: i32) -> i32 {
 }
 fn ordered_pairs_f(v: &[f64]) -> Vec<(f64, f64)> { let mut o = Vec::new(); for &a in v { for &b in v { if a != b { o.push((a, b)); } } } o }
 
-struct PlaneFloatAlphabet { xy: Vec<f64>, ortho_nf: Vec<f64>, frustum_nf: Vec<f64>, scales: Vec<(i32, i32)>, max_frustum_ratio: i32 }
+struct PlaneFloatAlphabet { xy: Vec<f64>, ortho_nf: Vec<f64>, frustum_nf: Vec<f64>, scales: Vec<(i32, i32)>, max_frustum_ratio: i32, pairs: Option<PlanePairs> }
+/// second audit: explicit (left,right) = (bottom,top) pairs and (near,far) pairs around the special values (a plane at zero, planes
+/// symmetric about zero, two planes next to each other far from the origin, near/far ratio next to 1 and huge); when present they
+/// replace the "all ordered pairs of the value lists" construction
+struct PlanePairs { xy: Vec<(f64, f64)>, ortho_nf: Vec<(f64, f64)>, frustum_nf: Vec<(f64, f64)> }
+const SPECIAL_PLANE_CLASSES: [&str; 8] = ["a left/right/bottom/top plane = 0", "x or y planes next to each other far from the origin (|r-l| <= 2^-10 max(|l|,|r|))", "x or y planes of very different magnitude", "orthographic near = -far", "orthographic near or far = 0", "near and far next to each other (|f-n| <= 2^-10 max(|n|,|f|))", "far/near >= 2^20", "frustum"];
 
 /// orthographic_* / frustum_* at element type T: corners with a derived bound at every scale, exact scaling law against
 /// the unscaled matrix, LH = RH * z mirror and layout equality bit for bit
 fn plane_float_tier<T: Fl>(s: &Section, al: &PlaneFloatAlphabet) {
     s.require_classes(&["off-centre", "centred", "inverted-x", "inverted-y", "far<near", "orthographic-near<=0", "orthographic", "frustum", "orthographic_without_depth_planes", "unscaled", "xy-scaled-up", "xy-scaled-down", "depth-scaled-up", "depth-scaled-down", "xy-and-depth-scaled-opposite-ways"]);
-    let xy = ordered_pairs_f(&al.xy);
+    if al.pairs.is_some() { s.require_classes(&SPECIAL_PLANE_CLASSES); }
+    let (xy, onf, fnf) = match &al.pairs {
+        Some(p) => (p.xy.clone(), p.ortho_nf.clone(), p.frustum_nf.clone()),
+        None => (ordered_pairs_f(&al.xy), ordered_pairs_f(&al.ortho_nf), ordered_pairs_f(&al.frustum_nf)),
+    };
     let mut sets: Vec<(bool, [f64; 6])> = Vec::new();
     for &(l, r) in &xy { for &(b, t) in &xy {
-        for (n, f) in ordered_pairs_f(&al.ortho_nf) { sets.push((false, [l, r, b, t, n, f])); }
-        for (n, f) in ordered_pairs_f(&al.frustum_nf) { sets.push((true, [l, r, b, t, n, f])); }
+        for &(n, f) in &onf { sets.push((false, [l, r, b, t, n, f])); }
+        for &(n, f) in &fnf { sets.push((true, [l, r, b, t, n, f])); }
     } }
-    s.meta("alphabet", json!({"element_type": T::NAME, "xy_values": al.xy, "orthographic_near_far_values": al.ortho_nf, "frustum_near_far_values": al.frustum_nf, "plane_sets": sets.len(), "scale_exponents(e_xy, e_depth)": al.scales, "frustum_max_|e_depth - e_xy|": al.max_frustum_ratio}));
+    let pj = |v: &Vec<(f64, f64)>| v.iter().map(|p| vec![p.0, p.1]).collect::<Vec<_>>();
+    match &al.pairs {
+        None => s.meta("alphabet", json!({"element_type": T::NAME, "xy_values": al.xy, "orthographic_near_far_values": al.ortho_nf, "frustum_near_far_values": al.frustum_nf, "plane_sets": sets.len(), "scale_exponents(e_xy, e_depth)": al.scales, "frustum_max_|e_depth - e_xy|": al.max_frustum_ratio})),
+        Some(p) => s.meta("alphabet", json!({"element_type": T::NAME, "(left,right) and (bottom,top) pairs": pj(&p.xy), "orthographic (near,far) pairs": pj(&p.ortho_nf), "frustum (near,far) pairs": pj(&p.frustum_nf), "plane_sets": sets.len(), "scale_exponents(e_xy, e_depth)": al.scales, "frustum_max_|e_depth - e_xy|": al.max_frustum_ratio})),
+    }
     let coll = Coll::new();
     sets.par_iter().enumerate().for_each(|(set_no, (is_frustum, pl))| {
         let off = pl[0] + pl[1] != 0.0 || pl[2] + pl[3] != 0.0;
@@ -346,7 +359,20 @@ fn plane_float_tier<T: Fl>(s: &Section, al: &PlaneFloatAlphabet) {
         if pl[2] > pl[3] { cl("inverted-y"); }
         if pl[5] < pl[4] { cl("far<near"); }
         if !is_frustum && pl[4] <= 0.0 { cl("orthographic-near<=0"); }
-        let wsum: f64 = pl.iter().map(|v| v.abs() * 2.0).sum();
+        if al.pairs.is_some() {
+            let close = |a: f64, b: f64| (a - b).abs() <= a.abs().max(b.abs()) / 1024.0;
+            let ratio = |a: f64, b: f64| { let (x, y) = (a.abs().min(b.abs()), a.abs().max(b.abs())); if x == 0.0 { 0.0 } else { y / x } };
+            let apart = |a: f64, b: f64| ratio(a, b) >= 1048576.0;
+            if pl[..4].iter().any(|v| *v == 0.0) { cl("a left/right/bottom/top plane = 0"); }
+            if close(pl[0], pl[1]) || close(pl[2], pl[3]) { cl("x or y planes next to each other far from the origin (|r-l| <= 2^-10 max(|l|,|r|))"); }
+            if ratio(pl[0], pl[1]) >= 4096.0 || ratio(pl[2], pl[3]) >= 4096.0 { cl("x or y planes of very different magnitude"); }
+            if !is_frustum && pl[4] == -pl[5] { cl("orthographic near = -far"); }
+            if !is_frustum && (pl[4] == 0.0 || pl[5] == 0.0) { cl("orthographic near or far = 0"); }
+            if close(pl[4], pl[5]) { cl("near and far next to each other (|f-n| <= 2^-10 max(|n|,|f|))"); }
+            if apart(pl[4], pl[5]) { cl("far/near >= 2^20"); }
+        }
+        // (the weight only orders the reported violations; capped so that the shift below cannot overflow)
+        let wsum: f64 = pl.iter().map(|v| v.abs() * 2.0).sum::<f64>().min(1.0e6);
         // decoded[k][lay][scale]
         let mut decoded: Vec<Vec<Vec<Option<A<f64, 4>>>>> = vec![vec![vec![None; al.scales.len()]; 2]; PLANE.len()];
         for (k, pc) in PLANE.iter().enumerate() {
@@ -414,13 +440,16 @@ fn plane_float_tier<T: Fl>(s: &Section, al: &PlaneFloatAlphabet) {
     coll.flush(s);
 }
 
-struct FovFloatAlphabet { fovs: Vec<f64>, e_nf: Vec<i32>, e_wh: Vec<i32> }
+struct FovFloatAlphabet { fovs: Vec<f64>, e_nf: Vec<i32>, e_wh: Vec<i32>, aspects: Vec<f64>, nfs: Vec<(f64, f64)>, epsilons: Vec<f64>, special: bool }
+const SPECIAL_FOV_CLASSES: [&str; 12] = ["tan(fov/2) < eps_T (fov <= 2^-30 f32 / 2^-60 f64)", "tan(fov/2)^2 < eps_T", "fov within 1 ulp of pi/2", "|fov - pi| <= 2^-7, fov != pi_T", "fov = pi_T (the float next to pi)", "2 pi - fov <= 2^-7", "aspect or width/height within 2^-19 of 1, not 1", "aspect or width/height <= 2^-30 or >= 2^30", "far/near <= 1 + 2^-10", "far/near >= 2^20", "0 < epsilon < eps_T", "unscaled"];
 
 /// perspective family at element type T
 fn fov_float_tier<T: Fl>(s: &Section, al: &FovFloatAlphabet) {
-    s.require_classes(&["fov<pi/2", "pi/2<fov<pi", "fov>pi", "narrow fov (< 0.03 rad)", "perspective", "perspective_fov", "tweaked_infinite", "infinite", "unscaled", "near-far-scaled-up", "near-far-scaled-down", "viewport-scaled-up", "viewport-scaled-down"]);
-    let aspects = [0.5f64, 1.0, 16.0 / 9.0];
-    let nfs = [(0.1f64, 100.0f64), (1.0, 2.0), (0.5, 1000.0)];
+    if al.special { s.require_classes(&["fov<pi/2", "pi/2<fov<pi", "fov>pi", "narrow fov (< 0.03 rad)", "perspective", "perspective_fov", "tweaked_infinite", "infinite"]); s.require_classes(&SPECIAL_FOV_CLASSES); }
+    else { s.require_classes(&["fov<pi/2", "pi/2<fov<pi", "fov>pi", "narrow fov (< 0.03 rad)", "perspective", "perspective_fov", "tweaked_infinite", "infinite", "unscaled", "near-far-scaled-up", "near-far-scaled-down", "viewport-scaled-up", "viewport-scaled-down"]); }
+    let aspects: &[f64] = &al.aspects;
+    let nfs: &[(f64, f64)] = &al.nfs;
+    let epsilons: &[f64] = &al.epsilons;
     assert!(al.e_nf[0] == 0 && al.e_wh[0] == 0, "the first scale must be the unscaled one");
     s.meta("alphabet", json!({"element_type": T::NAME, "fovs": al.fovs.len(), "fov_min": al.fovs.iter().cloned().fold(f64::INFINITY, f64::min), "fov_max": al.fovs.iter().cloned().fold(0.0, f64::max), "aspects_or_sizes": aspects, "near_far": nfs.iter().map(|p| vec![p.0, p.1]).collect::<Vec<_>>(), "near_far_scale_exponents": al.e_nf, "width_height_scale_exponents": al.e_wh}));
     let coll = Coll::new();
@@ -432,6 +461,14 @@ fn fov_float_tier<T: Fl>(s: &Section, al: &FovFloatAlphabet) {
         let mut cls: BTreeMap<&'static str, u64> = BTreeMap::new();
         let mut cl = |c: &'static str| *cls.entry(c).or_insert(0) += 1;
         cl(if fov < std::f64::consts::FRAC_PI_2 { "fov<pi/2" } else if fov < std::f64::consts::PI { "pi/2<fov<pi" } else { "fov>pi" });
+        if al.special {
+            let (pi, ulp) = (std::f64::consts::PI, T::EPS);
+            if t.abs() < T::EPS { cl("tan(fov/2) < eps_T (fov <= 2^-30 f32 / 2^-60 f64)"); }
+            if t * t < T::EPS { cl("tan(fov/2)^2 < eps_T"); }
+            if (fov - pi / 2.0).abs() <= 2.0 * ulp { cl("fov within 1 ulp of pi/2"); }
+            if fov == T::PI().to64() { cl("fov = pi_T (the float next to pi)"); } else if (fov - pi).abs() <= 1.0 / 128.0 { cl("|fov - pi| <= 2^-7, fov != pi_T"); }
+            if 2.0 * pi - fov <= 1.0 / 128.0 { cl("2 pi - fov <= 2^-7"); }
+        }
         let mut case_no = 0u64;
         for (k, fc) in FOVC.iter().enumerate() {
             let site = format!("Mat4<{}>::{}", T::NAME, fc.name);
@@ -440,14 +477,21 @@ fn fov_float_tier<T: Fl>(s: &Section, al: &FovFloatAlphabet) {
             let r = |v: f64| if T::NAME == "f32" { (v as f32) as f64 } else { v };
             let mut arglists: Vec<([f64; 5], bool, f64)> = Vec::new(); // args, has far, eps
             match fc.kind {
-                Kind::Persp => for a in aspects { for (n, f) in nfs { arglists.push(([fov, r(a), r(n), r(f), 0.0], true, 0.0)); } },
-                Kind::PerspFov => for w in aspects { for h in aspects { for (n, f) in nfs { arglists.push(([fov, r(w), r(h), r(n), r(f)], true, 0.0)); } } },
-                Kind::Tweaked => for a in aspects { for (n, _) in nfs { for e in [0.0, 1.0 / 1024.0] { arglists.push(([fov, r(a), r(n), e, 0.0], false, e)); } } },
-                Kind::Infinite => for a in aspects { for (n, _) in nfs { arglists.push(([fov, r(a), r(n), 0.0, 0.0], false, 0.0)); } },
+                Kind::Persp => for &a in aspects { for &(n, f) in nfs { arglists.push(([fov, r(a), r(n), r(f), 0.0], true, 0.0)); } },
+                Kind::PerspFov => for &w in aspects { for &h in aspects { for &(n, f) in nfs { arglists.push(([fov, r(w), r(h), r(n), r(f)], true, 0.0)); } } },
+                Kind::Tweaked => for &a in aspects { for &(n, _) in nfs { for &e in epsilons { arglists.push(([fov, r(a), r(n), e, 0.0], false, e)); } } },
+                Kind::Infinite => for &a in aspects { for &(n, _) in nfs { arglists.push(([fov, r(a), r(n), 0.0, 0.0], false, 0.0)); } },
             }
             let e_wh: &[i32] = if fc.kind == Kind::PerspFov { &al.e_wh } else { &[0] };
             for (args0, has_far, eps) in arglists {
                 let (aspect, ni) = if fc.kind == Kind::PerspFov { (args0[1] / args0[2], 3usize) } else { (args0[1], 2usize) };
+                if al.special && k % 4 == 0 {
+                    if aspect != 1.0 && (aspect - 1.0).abs() <= 1.0 / 524288.0 { cl("aspect or width/height within 2^-19 of 1, not 1"); }
+                    if aspect <= 1.0 / 1073741824.0 || aspect >= 1073741824.0 { cl("aspect or width/height <= 2^-30 or >= 2^30"); }
+                    if has_far && args0[ni + 1] / args0[ni] <= 1.0 + 1.0 / 1024.0 { cl("far/near <= 1 + 2^-10"); }
+                    if has_far && args0[ni + 1] / args0[ni] >= 1048576.0 { cl("far/near >= 2^20"); }
+                    if !has_far && eps > 0.0 && eps < T::EPS { cl("0 < epsilon < eps_T"); }
+                }
                 for lay in 0..2 {
                     let mut base: Option<A<T, 4>> = None;
                     for (s2i, &e2) in al.e_nf.iter().enumerate() { for (s1i, &e1) in e_wh.iter().enumerate() {
@@ -540,6 +584,15 @@ fn fov_float_tier<T: Fl>(s: &Section, al: &FovFloatAlphabet) {
     coll.flush(s);
 }
 
+/// second audit: on the unchanged tree every constructor call of the exact tiers is modelled.  A change that makes a constructor
+/// compare values, take an absolute value or call epsilon() turns the formal types (`Fr`, `Deg`) unmodelled: those calls are skipped
+/// without a verdict, i.e. the tier that decides the property for all inputs goes blind silently.  That is reported as a machinery
+/// error (exit code 2), never as a violation.
+fn report_blind(s: &Section, blind: u64) {
+    s.meta("constructor_calls_not_evaluated_in_the_exact_type", json!(blind));
+    if blind > 0 { s.rep.machinery_error(format!("section '{}': {} constructor calls could not be evaluated in the exact/formal element type (none on the unchanged tree): the code under check now inspects values or leaves the ring operations, so this tier no longer decides anything about it", s.name, blind)); }
+}
+
 fn main() {
     let rep = Report::start("C08", "exploration");
     let th = rep.thorough();
@@ -566,6 +619,7 @@ fn main() {
         if let Err(e) = &deg { s.degrade(e); }
         if order < deg_corner { s.degrade("lattice order below the measured degree"); }
         let w_identity = AtomicBool::new(true);
+        let blind = std::sync::atomic::AtomicU64::new(0);
         let coll = Coll::new();
         par_lattice(6, order, |a| {
             for (k, pc) in PLANE.iter().enumerate() {
@@ -585,7 +639,7 @@ fn main() {
                 for lay in 0..2 {
                     let inp = || json!({"layout": LAY[lay], "planes[l,r,b,t,n,f]": pli.iter().map(|v| *v as i64).collect::<Vec<_>>()});
                     let hands: &[bool] = if pc.fam == Fam::OrthoXY { &[true, false] } else if pc.lh { &[true] } else { &[false] };
-                    let Some(m) = s.call(&site, inp, || plane_mat::<Fr>(lay, k, plf)) else { s.evals(8, 0); continue };
+                    let Some(m) = s.call(&site, inp, || plane_mat::<Fr>(lay, k, plf)) else { s.evals(8, 0); blind.fetch_add(1, Relaxed); continue };
                     mats[lay] = Some(m);
                     for &lh in hands {
                         s.evals(8, if valid { 8 } else { 0 });
@@ -612,6 +666,7 @@ fn main() {
         });
         s.meta("lattice", json!({"n": 6, "order": order, "points": lattice_count(6, order).to_string(), "measured_cross_degree": deg_corner}));
         coll.flush(s);
+        report_blind(s, blind.load(Relaxed));
         s.meta("w_equals_view_depth_identically", json!(w_identity.load(Relaxed)));
         if !w_identity.load(Relaxed) { s.degrade("w is not identically the distance along the view direction: positivity of w is only decided at the lattice points"); }
     });
@@ -622,6 +677,7 @@ fn main() {
         s.require_classes(&["proper-volume", "off-centre", "orthographic-pair", "frustum-pair"]);
         if let Err(e) = &deg { s.degrade(e); }
         let coll = Coll::new();
+        let blind = std::sync::atomic::AtomicU64::new(0);
         par_lattice(6, order, |a| {
             for (kl, kr) in PLANE_PAIRS {
                 let pc = &PLANE[kl];
@@ -634,7 +690,7 @@ fn main() {
                 for lay in 0..2 {
                     s.eval(valid);
                     let inp = || json!({"layout": LAY[lay], "planes[l,r,b,t,n,f]": pli.iter().map(|v| *v as i64).collect::<Vec<_>>()});
-                    let Some((ml, mr)) = s.call(&site, inp, || (plane_mat::<Fr>(lay, kl, plf), plane_mat::<Fr>(lay, kr, plf))) else { continue };
+                    let Some((ml, mr)) = s.call(&site, inp, || (plane_mat::<Fr>(lay, kl, plf), plane_mat::<Fr>(lay, kr, plf))) else { blind.fetch_add(1, Relaxed); continue };
                     let bad = catch(|| { let mut bad = Vec::new(); for i in 0..4 { for j in 0..4 { let want = if j == 2 { -mr[i][j] } else { mr[i][j] }; if !ml[i][j].cross_eq(want) { bad.push((i, j)); } } } bad });
                     match bad {
                         Ok(bad) => if let Some(&(i, j)) = bad.first() {
@@ -646,6 +702,7 @@ fn main() {
             }
         });
         coll.flush(s);
+        report_blind(s, blind.load(Relaxed));
         s.meta("lattice", json!({"n": 6, "order": order, "points": lattice_count(6, order).to_string(), "measured_cross_degree": deg_mirror}));
         s.sample(json!({"pair": "frustum_lh_no <-> frustum_rh_no", "law": "lh[i][j] == rh[i][j] * (j == 2 ? -1 : 1), 16 entries, cross-multiplied"}));
     });
@@ -665,6 +722,7 @@ fn main() {
         } }
         s.meta("alphabet", json!({"xy_values": xy_vals.len(), "xy_ordered_pairs": xy.len(), "orthographic_near_far_pairs": ordered_pairs(&ortho_nf).len(), "frustum_near_far_pairs": ordered_pairs(&frustum_nf).len(), "plane_sets": sets.len()}));
         let sample_no = sets.iter().position(|(fr, pl)| *fr && pl[0] > pl[1] && pl[2] + pl[3] != qi(0));
+        let blind = std::sync::atomic::AtomicU64::new(0);
         let coll = Coll::new();
         sets.par_iter().enumerate().for_each(|(set_no, (is_frustum, pl))| {
             let off = pl[0] + pl[1] != qi(0) || pl[2] + pl[3] != qi(0);
@@ -684,7 +742,7 @@ fn main() {
                 for lay in 0..2 {
                     let inp = || json!({"layout": LAY[lay], "planes": jp(pl)});
                     let hands: &[bool] = if pc.fam == Fam::OrthoXY { &[true, false] } else if pc.lh { &[true] } else { &[false] };
-                    let Some(m) = s.call(&site, inp, || plane_mat::<X>(lay, k, *pl)) else { s.evals(8, 0); continue };
+                    let Some(m) = s.call(&site, inp, || plane_mat::<X>(lay, k, *pl)) else { s.evals(8, 0); blind.fetch_add(1, Relaxed); continue };
                     pair[lay] = Some(m);
                     for &lh in hands {
                         s.evals(8, if off { 8 } else { 0 });
@@ -704,23 +762,30 @@ fn main() {
             if Some(set_no) == sample_no { s.sample(json!({"planes": jp(pl), "constructors": "frustum_{lh,rh}_{zo,no}", "corner near-left-bottom (rh)": jxs(&[pl[0], pl[2], -pl[4], qi(1)]), "must map to": "(-1, -1, 0|-1), w > 0"})); }
         });
         coll.flush(s);
+        report_blind(s, blind.load(Relaxed));
     });
 
     // ---------------------------------------------------------------------------------------------
     // perspective family: exact, with angle tokens whose half angle has a rational tangent
     // audit: the last tokens of each list have pi < fov < 2 pi (allowed by the debug_assert!s: tan(fov/2) < 0, the implied
     // volume is inverted), the aspect list reaches 1/100 and 100, near/far reach a ratio of 1025/1024 and of 2^40
-    let fov_tokens: Vec<(i128, i128, i128)> = if th { vec![(1, 10, 1), (1, 5, 2), (1, 3, 1), (1, 2, 1), (2, 3, 1), (1, 5, 1), (1, 4, 1), (3, 4, 1), (9, 10, 1), (1, 7, 3), (1, 100, 1), (2, 1, 1), (3, 1, 1), (3, 2, 1), (10, 1, 1)] } else { vec![(1, 10, 1), (1, 5, 2), (1, 3, 1), (1, 2, 1), (2, 3, 1), (2, 1, 1), (3, 1, 1)] };
-    let aspects: Vec<X> = if th { vec![q(1, 2), qi(1), q(16, 9), q(4, 3), qi(3), q(1, 100), qi(100)] } else { vec![q(1, 2), qi(1), q(16, 9), q(1, 100)] };
-    let persp_nf: Vec<X> = if th { vec![q(1, 1 << 20), q(1, 10), qi(1), q(1025, 1024), qi(2), qi(5), qi(1000), qi(1 << 20)] } else { vec![qi(1), q(1025, 1024), qi(2), qi(5)] };
+    let fov_tokens: Vec<(i128, i128, i128)> = if th { vec![(1, 10, 1), (1, 5, 2), (1, 3, 1), (1, 2, 1), (2, 3, 1), (1, 5, 1), (1, 4, 1), (3, 4, 1), (9, 10, 1), (1, 7, 3), (1, 100, 1), (2, 1, 1), (3, 1, 1), (3, 2, 1), (10, 1, 1), (1, 1 << 28, 1)] } else { vec![(1, 10, 1), (1, 5, 2), (1, 3, 1), (1, 2, 1), (2, 3, 1), (2, 1, 1), (3, 1, 1), (1, 1 << 28, 1)] };
+    // second audit: the exact type has epsilon() = 2^-52 and comparisons, so a closeness guard (absolute, relative or on a square) is a
+    // branch this tier can take: one token with tan(fov/2)^2 < 2^-52, an aspect, a far/near ratio and an epsilon within 2^-54 of 1 / 1 / 0
+    let one_plus: X = q((1 << 54) + 1, 1 << 54);
+    let aspects: Vec<X> = if th { vec![q(1, 2), qi(1), q(16, 9), q(4, 3), qi(3), q(1, 100), qi(100)] } else { vec![q(1, 2), qi(1), q(16, 9), q(1, 100), qi(100)] };
+    let persp_nf: Vec<X> = if th { vec![q(1, 1 << 20), q(1, 10), qi(1), q(1025, 1024), qi(2), qi(5), qi(1000), qi(1 << 20)] } else { vec![qi(1), q(1025, 1024), qi(2), qi(5), qi(1 << 20)] };
     let epsilons: Vec<X> = if th { vec![qi(0), q(1, 1024), q(1, 16)] } else { vec![qi(0), q(1, 1024)] };
+    let tiny_eps: X = q(1, 1 << 54);
     let inf_mult: [i128; 4] = [1, 2, 5, 100];
     rep.section("perspective, perspective_fov, (tweaked_)infinite_perspective: exact, fov with rational tan(fov/2)",
-        &format!("fov = 2k*arg(z_t) for (t_num, t_den, k) in {:?} (z_t = ((1-t^2)/(1+t^2), 2t/(1+t^2)); 0 < fov < 2 pi; tan(fov/2) is an exact rational) x aspect in {:?} (perspective_fov: width, height both from that set, aspect = width/height) x (near,far) in pairs near<far of {:?} (the debug_assert!s are preconditions) x 2 layouts; the tokens with tan(fov/2) < 0 are fields of view in (pi, 2 pi), which the preconditions allow: the implied planes are then inverted (top < bottom) and the same identities are claimed.  Implied planes: top = near*tan(fov/2), bottom = -top, right = top*aspect, left = -right.  For the 8 perspective/perspective_fov constructors: 8 corners -> (+-1, +-1, near -> 0|-1, far -> 1), w > 0; matrix == frustum_<same suffix> of the implied planes entry by entry; LH == RH with column 2 negated.  For the 4 infinite constructors (epsilon in {:?}; infinite_* = epsilon 0): the near rectangle scaled to distance d = m*near, m in {:?}, maps to x,y = +-1, depth (1-eps) - (2-eps)*near/d (so near -> -1, limit 1-eps), w > 0; LH == RH with column 2 negated.  one evaluation per corner / per matrix equality; non-trivial: aspect != 1", fov_tokens, aspects, persp_nf, epsilons, inf_mult), true, false, |s| {
+        &format!("fov = 2k*arg(z_t) for (t_num, t_den, k) in {:?} (z_t = ((1-t^2)/(1+t^2), 2t/(1+t^2)); 0 < fov < 2 pi; tan(fov/2) is an exact rational) x aspect in {:?} (perspective_fov: width, height both from that set, aspect = width/height) x (near,far) in pairs near<far of {:?} (the debug_assert!s are preconditions) x 2 layouts; the tokens with tan(fov/2) < 0 are fields of view in (pi, 2 pi), which the preconditions allow: the implied planes are then inverted (top < bottom) and the same identities are claimed.  Implied planes: top = near*tan(fov/2), bottom = -top, right = top*aspect, left = -right.  For the 8 perspective/perspective_fov constructors: 8 corners -> (+-1, +-1, near -> 0|-1, far -> 1), w > 0; matrix == frustum_<same suffix> of the implied planes entry by entry; LH == RH with column 2 negated.  For the 4 infinite constructors (epsilon in {:?}; infinite_* = epsilon 0): the near rectangle scaled to distance d = m*near, m in {:?}, maps to x,y = +-1, depth (1-eps) - (2-eps)*near/d (so near -> -1, limit 1-eps), w > 0; LH == RH with column 2 negated.  Second audit: the token (1, 2^28, 1) has tan(fov/2)^2 < 2^-52 = epsilon() of the exact type; for every other token each constructor is also run with one argument at a time within 2^-54 of its special value (aspect, width/height (also width == height != 1 and 3(1+2^-54) : 3) and far/near = 1 + 2^-54 or its reciprocal, tweak epsilon = 2^-54), the others plain, so that an absolute or relative closeness guard written with epsilon() or approx is a branch this tier takes.  one evaluation per corner / per matrix equality; non-trivial: aspect != 1", fov_tokens, aspects, persp_nf, epsilons, inf_mult), true, false, |s| {
         s.require_classes(&["perspective", "perspective_fov", "tweaked_infinite(eps!=0)", "tweaked_infinite(eps=0)", "infinite", "aspect!=1", "aspect=1", "width!=height", "lh", "rh", "zero_to_one", "negative_one_to_one", "fov<pi/2", "fov>pi/2", "fov>pi(tan<0, inverted implied volume)", "aspect<=1/100", "far/near<=1025/1024"]);
+        s.require_classes(&["tan(fov/2)^2 < 2^-52", "0 < |aspect - 1| <= 2^-54", "far/near <= 1 + 2^-54", "far/near >= 2^20", "0 < epsilon < 2^-52", "aspect>=100"]);
         let nf_pairs: Vec<(X, X)> = ordered_pairs(&persp_nf).into_iter().filter(|(n, f)| n < f).collect();
         s.meta("alphabet", json!({"fov_tokens": fov_tokens.len(), "aspects": aspects.len(), "near_far_pairs": nf_pairs.len(), "epsilons": epsilons.len(), "infinite_depth_multiples": inf_mult}));
         let mut case_no = 0u64;
+        let mut blind = 0u64;
         for &(tn, td, kk) in &fov_tokens {
             let b = angle_base_t(tn, td);
             let (fov, half) = (X::tok(b, 2 * kk), X::tok(b, kk));
@@ -738,6 +803,15 @@ fn main() {
                     Kind::Tweaked => for &a in &aspects { for &n in &persp_nf { for &e in &epsilons { arglists.push(([fov, a, n, e, qi(0)], a, n, qi(0), e)); } } },
                     Kind::Infinite => for &a in &aspects { for &n in &persp_nf { arglists.push(([fov, a, n, qi(0), qi(0)], a, n, qi(0), qi(0))); } },
                 }
+                // second audit: one argument at a time within 2^-54 of its special value (1 for aspect, width/height and far/near, 0 for epsilon),
+                // the others plain (the full product with these values, or with the token of the tiny field of view, leaves the i128 rationals)
+                let (o, h, op) = (qi(1), q(1, 2), one_plus);
+                if td < (1 << 20) { match fc.kind {
+                    Kind::Persp => for (a, n, f) in [(op, o, qi(2)), (o / op, o, qi(2)), (h, o, op), (o, o, op), (h, qi(2), qi(2) * op)] { arglists.push(([fov, a, n, f, qi(0)], a, n, f, qi(0))); },
+                    Kind::PerspFov => for (w, ht, n, f) in [(op, o, o, qi(2)), (o, op, o, qi(2)), (op, op, o, qi(2)), (qi(3) * op, qi(3), o, qi(2)), (h, o, o, op), (o, o, o, op)] { arglists.push(([fov, w, ht, n, f], w / ht, n, f, qi(0))); },
+                    Kind::Tweaked => for (a, n, e) in [(h, o, tiny_eps), (o, qi(2), tiny_eps), (op, o, qi(0)), (h, op, q(1, 1024))] { arglists.push(([fov, a, n, e, qi(0)], a, n, qi(0), e)); },
+                    Kind::Infinite => for (a, n) in [(op, o), (h, op)] { arglists.push(([fov, a, n, qi(0), qi(0)], a, n, qi(0), qi(0))); },
+                } }
                 for (args, aspect, near, far, eps) in arglists {
                     let nontriv = aspect != qi(1);
                     s.class(match fc.kind { Kind::Persp => "perspective", Kind::PerspFov => "perspective_fov", Kind::Tweaked => if eps != qi(0) { "tweaked_infinite(eps!=0)" } else { "tweaked_infinite(eps=0)" }, Kind::Infinite => "infinite" });
@@ -747,6 +821,12 @@ fn main() {
                     s.class(if tan < qi(0) { "fov>pi(tan<0, inverted implied volume)" } else if tan < qi(1) { "fov<pi/2" } else { "fov>pi/2" });
                     if aspect <= q(1, 100) { s.class("aspect<=1/100"); }
                     if far != qi(0) && far / near <= q(1025, 1024) { s.class("far/near<=1025/1024"); }
+                    if tan * tan < q(1, 1 << 52) { s.class("tan(fov/2)^2 < 2^-52"); }
+                    if aspect == one_plus || aspect == qi(1) / one_plus { s.class("0 < |aspect - 1| <= 2^-54"); }
+                    if aspect >= qi(100) { s.class("aspect>=100"); }
+                    if far == near * one_plus { s.class("far/near <= 1 + 2^-54"); }
+                    if far != qi(0) && far / near >= qi(1 << 20) { s.class("far/near >= 2^20"); }
+                    if eps > qi(0) && eps < q(1, 1 << 52) { s.class("0 < epsilon < 2^-52"); }
                     let top = near * tan; let right = top * aspect;
                     let argj = match fc.kind {
                         Kind::Persp => json!({"fov_y": fov_json, "aspect": jx(args[1]), "near": jx(near), "far": jx(far)}),
@@ -759,7 +839,7 @@ fn main() {
                     let mut pair: [Option<A<X, 4>>; 2] = [None, None];
                     for lay in 0..2 {
                         let inp = || json!({"layout": LAY[lay], "args": argj});
-                        let Some(m) = s.call(&site, inp, || fov_mat::<X>(lay, k, args)) else { s.evals(8, 0); continue };
+                        let Some(m) = s.call(&site, inp, || fov_mat::<X>(lay, k, args)) else { s.evals(8, 0); blind += 1; continue };
                         pair[lay] = Some(m);
                         match fc.kind {
                             Kind::Persp | Kind::PerspFov => {
@@ -814,6 +894,7 @@ fn main() {
                 }
             }
         }
+        report_blind(s, blind);
     });
 
     // ---------------------------------------------------------------------------------------------
@@ -887,7 +968,7 @@ fn main() {
             xy: if th { vec![-3.0, -2.0, -1.0, -0.5, 1.0, 1.5, 3.0] } else { vec![-3.0, -1.0, -0.5, 1.0, 1.5] },
             ortho_nf: if th { vec![-2.0, -1.0, 0.0, 0.5, 2.0, 5.0] } else { vec![-2.0, 0.0, 0.5, 5.0] },
             frustum_nf: if th { vec![0.5, 1.0, 2.0, 5.0, 100.0] } else { vec![0.5, 2.0, 100.0] },
-            scales, max_frustum_ratio: if f32_ { 110 } else { 1000 },
+            scales, max_frustum_ratio: if f32_ { 110 } else { 1000 }, pairs: None,
         }
     };
     let plane_rule = |ty: &str, al: &PlaneFloatAlphabet| format!("element type {}: (left,right) and (bottom,top): all ordered pairs of distinct values of {:?}; (near,far): all ordered pairs of distinct values of {:?} for orthographic_* and of {:?} for frustum_* (all dyadic, so sums and differences of planes are exact) x the (e_xy, e_depth) in {:?}: (left,right,bottom,top) multiplied by 2^e_xy and (near,far) by 2^e_depth (frustum_*: only |e_depth - e_xy| <= {}, the entry 2 near/(right-left) must stay finite and normal; orthographic_without_depth_planes: e_depth = 0 only) x 9 constructors x 2 layouts.  (a) the 8 corners of the scaled volume through the decoded matrix in f64: |ndc - want| <= 256 eps_{} (sum|terms|/|w| + 1), w > 0 for corners at positive distance; (b) power-of-two scaling is exact in binary floating point while nothing overflows or goes subnormal, and the constructors' own intermediates (at most near*far*2) stay in range on this alphabet: every entry must equal the unscaled entry times 2^k bit for bit, k = -e_xy for (0,0),(1,1) and -e_depth for (2,2) of orthographic_*, e_depth - e_xy for (0,0),(1,1) and e_depth for (2,3) of frustum_*, 0 elsewhere; (c) left-handed == right-handed with column 2 negated, and the two layouts, bit for bit at every scale.  one evaluation per corner / per matrix identity; non-trivial: volume not centred on the axis", ty, al.xy, al.ortho_nf, al.frustum_nf, al.scales, al.max_frustum_ratio, ty);
@@ -907,11 +988,68 @@ fn main() {
         fovs.extend_from_slice(narrow);
         FovFloatAlphabet { fovs,
             e_nf: if f32_ { if th { vec![0, 13, -13, 27, -27, 40, -40, 55, -55] } else { vec![0, 40, -40, 55, -55] } } else if th { vec![0, 100, -100, 250, -250, 400, -400, 500, -500] } else { vec![0, 400, -400, 500, -500] },
-            e_wh: if f32_ { if th { vec![0, 13, -13, 40, -40, 70, -70, 100, -100] } else { vec![0, 40, -40, 100, -100] } } else if th { vec![0, 100, -100, 400, -400, 700, -700, 1000, -1000] } else { vec![0, 400, -400, 1000, -1000] } }
+            e_wh: if f32_ { if th { vec![0, 13, -13, 40, -40, 70, -70, 100, -100] } else { vec![0, 40, -40, 100, -100] } } else if th { vec![0, 100, -100, 400, -400, 700, -700, 1000, -1000] } else { vec![0, 400, -400, 1000, -1000] },
+            aspects: vec![0.5, 1.0, 16.0 / 9.0], nfs: vec![(0.1, 100.0), (1.0, 2.0), (0.5, 1000.0)], epsilons: vec![0.0, 1.0 / 1024.0], special: false }
     };
     let fov_rule = |ty: &str, al: &FovFloatAlphabet| format!("element type {}: fov = 0.05 + i*3.04/{} for i in 0..{} (inside (0, pi)) and {} values in (pi, 2 pi) (allowed by the preconditions; tan(fov/2) < 0) and 4 narrow fields of view down to 2.5e-4 (f32) / 1e-7 (f64), rounded to {} x aspect (or width/height pairs) from {{0.5, 1, 16/9}} x (near, far) in {{(0.1, 100), (1, 2), (0.5, 1000)}} (rounded to {}) x epsilon in {{0, 2^-10}} x (near, far) multiplied by 2^e, e in {:?} x (perspective_fov only) (width, height) multiplied by 2^e, e in {:?} x 12 constructors x 2 layouts.  (a) corners implied by t = tan(fov/2) (oracle, libm, f64, from the rounded fov): |ndc - want| <= 256 eps_{} (sum|terms|/|w| + 1), w > 0 (infinite constructors: near rectangle scaled to 1, 2, 5, 100 times near, depth (1-eps) - (2-eps)*near/d); (b) bit for bit: matrix(scaled args) == matrix(args) except entry (2,3), which is multiplied by 2^e(near,far) (exact while nothing overflows or goes subnormal; the constructors' own intermediates, at most 2*far*near and h*height, stay in range on this alphabet); (c) perspective_* / perspective_fov_* against the real frustum_* of the implied planes (top = near*t, right = top*aspect, computed in f64, rounded to {}): entrywise |difference| <= 256 eps_{} |entry|, zero entries exactly zero; (d) left-handed == right-handed with column 2 negated, (e) the two layouts, bit for bit.  one evaluation per corner / per matrix identity; non-trivial: all", ty, al.fovs.len() - 4 - if th { 8 } else { 4 } - 1, al.fovs.len() - 4 - if th { 8 } else { 4 }, if th { 8 } else { 4 }, ty, ty, al.e_nf, al.e_wh, ty, ty, ty);
     { let al = mk_fov_alpha(false); rep.section("perspective family, f64 tier at magnitudes 2^-500 .. 2^500 (sizes 2^-1000 .. 2^1000), fov up to 2 pi, matrix equalities", &fov_rule("f64", &al), true, false, |s| fov_float_tier::<f64>(s, &al)); }
     { let al = mk_fov_alpha(true); rep.section("perspective family, f32 tier at magnitudes 2^-55 .. 2^55 (sizes 2^-100 .. 2^100), fov up to 2 pi, matrix equalities", &fov_rule("f32", &al), true, false, |s| fov_float_tier::<f32>(s, &al)); }
+
+    // ---------------------------------------------------------------------------------------------
+    // second audit: the special values of every argument, at both float types (see out/AUDIT2.md)
+    let mk_plane_special = |f32_: bool| -> PlaneFloatAlphabet {
+        // H: a coordinate far from the origin whose square no longer fits the significand together with the +1 / +3 next to it
+        let h = if f32_ { 8192.0 } else { 1073741824.0 };
+        let (tiny, huge) = if f32_ { (1.0 / 1024.0, 1024.0) } else { (1.0 / 1048576.0, 1048576.0) };
+        let a = if f32_ { 40 } else { 400 };
+        let mut pp = PlanePairs {
+            xy: vec![(0.0, 1.0), (-2.0, 0.0), (0.0, -1.5), (-1.5, 1.5), (h, h + 1.0), (h + 3.0, h), (-h - 1.0, -h), (-1.0, h), (-h, 0.5)],
+            ortho_nf: vec![(-2.0, 2.0), (0.0, 1.0), (-1.0, 0.0), (h, h + 1.0), (h + 1.0, h), (-h - 3.0, -h), (tiny, huge)],
+            frustum_nf: vec![(1.0, 2.0), (h, h + 1.0), (h + 3.0, h), (tiny, huge)],
+        };
+        if th {
+            // thorough: the same one step further out (2^20 for f32, 2^45 for f64: sums and near*far still exact), and a plane at zero next to a huge one
+            let h2 = if f32_ { 1048576.0 } else { 35184372088832.0 };
+            pp.xy.extend_from_slice(&[(h2, h2 + 1.0), (-h2 - 3.0, -h2), (h2 + 1.0, h2), (0.0, h2), (0.75, 1.0)]);
+            pp.ortho_nf.extend_from_slice(&[(h2, h2 + 1.0), (-h2, h2), (0.0, h2)]);
+            pp.frustum_nf.extend_from_slice(&[(h2, h2 + 1.0), (h2 + 3.0, h2), (1.0, huge)]);
+        }
+        PlaneFloatAlphabet { xy: vec![], ortho_nf: vec![], frustum_nf: vec![], max_frustum_ratio: if f32_ { 110 } else { 1000 },
+            scales: vec![(0, 0), (a, a), (-a, -a), (a, -a), (-a, a)], pairs: Some(pp) }
+    };
+    let plane_special_rule = |ty: &str, al: &PlaneFloatAlphabet| { let p = al.pairs.as_ref().unwrap(); format!("element type {}: (left,right) and (bottom,top) each from the pairs {:?} (a plane at 0; planes symmetric about 0; two planes 1 or 3 apart at H = {} (thorough: also at 2^20 (f32) / 2^45 (f64)) where H^2 and (H+1)^2 are no longer both representable, so that a rewrite through squares, through the quotient right/left or with an absolute or relative closeness guard shows; planes of very different magnitude; inverted pairs) x (near,far) from {:?} for orthographic_* and {:?} for frustum_* (near = -far, near or far = 0, near and far 1 or 3 apart at H, far/near = 2^20 (f32) / 2^40 (f64), far<near) x (e_xy, e_depth) in {:?} (every sum and difference of two planes is exact in {}, and near*far*2, the constructors' own largest intermediate, stays in range) x 9 constructors x 2 layouts.  Same four checks as the tier above: (a) 8 corners, |ndc - want| <= 256 eps_{} (sum|terms|/|w| + 1), w > 0 in front of the viewer; (b) exact power-of-two scaling law; (c) left-handed == right-handed with column 2 negated; (d) layouts equal, bit for bit.  one evaluation per corner / per matrix identity; non-trivial: volume not centred on the axis", ty, p.xy, if ty == "f32" { "2^13" } else { "2^30" }, p.ortho_nf, p.frustum_nf, al.scales, ty, ty) };
+    { let al = mk_plane_special(false); rep.section("orthographic+frustum, f64 tier: special plane values (zero, symmetric, adjacent planes far from the origin, far/near next to 1 and 2^40)", &plane_special_rule("f64", &al), true, false, |s| plane_float_tier::<f64>(s, &al)); }
+    { let al = mk_plane_special(true); rep.section("orthographic+frustum, f32 tier: special plane values (zero, symmetric, adjacent planes far from the origin, far/near next to 1 and 2^20)", &plane_special_rule("f32", &al), true, false, |s| plane_float_tier::<f32>(s, &al)); }
+
+    let mk_fov_special = |f32_: bool| -> FovFloatAlphabet {
+        let nb = |v: f64, up: bool| -> f64 { if f32_ { let b = (v as f32).to_bits(); f32::from_bits(if up { b + 1 } else { b - 1 }) as f64 } else { let b = v.to_bits(); f64::from_bits(if up { b + 1 } else { b - 1 }) } };
+        let (pi, hp) = if f32_ { (std::f32::consts::PI as f64, std::f32::consts::FRAC_PI_2 as f64) } else { (std::f64::consts::PI, std::f64::consts::FRAC_PI_2) };
+        let p2 = |e: i32| 2.0f64.powi(e);
+        // steps towards pi and 2 pi (all exactly representable next to pi_T: the ulp of pi_f32 is 2^-22, of pi_f64 2^-51)
+        let (s1, s2, s3) = if f32_ { (p2(-8), p2(-14), p2(-18)) } else { (p2(-10), p2(-20), p2(-30)) };
+        let fovs = vec![
+            if f32_ { p2(-30) } else { p2(-60) }, if f32_ { p2(-14) } else { p2(-30) },          // tan(fov/2) below eps_T; tan^2 below eps_T
+            nb(hp, false), hp, nb(hp, true),                                                      // tan(fov/2) next to 1
+            pi - s1, pi - s2, pi - s3, nb(pi, false), pi, nb(pi, true), pi + s3, pi + s2, pi + s1, // the pole of tan(fov/2): |tan| up to 2^53 (f64) / 2^24 (f32)
+            2.0 * pi - s1, 2.0 * pi - s2, nb(2.0 * pi, false),                                     // the upper bound of the precondition
+            1.0,
+        ];
+        let mut fovs = fovs;
+        if th {
+            let steps: &[i32] = if f32_ { &[-5, -11, -16, -20] } else { &[-5, -15, -25, -35, -40] };
+            for &e in steps { fovs.extend_from_slice(&[pi - p2(e), pi + p2(e), 2.0 * pi - p2(e), hp - p2(e), hp + p2(e)]); }
+            let tiny: &[i32] = if f32_ { &[-8, -11, -12, -20, -25] } else { &[-10, -20, -26, -27, -40, -50] };
+            for &e in tiny { fovs.push(p2(e)); }
+        }
+        let (k1, k2) = if f32_ { (20, 30) } else { (40, 60) };
+        FovFloatAlphabet { fovs, e_nf: vec![0], e_wh: vec![0], special: true,
+            aspects: vec![p2(-k2), 1.0 - p2(-k1), 1.0, 1.0 + p2(-k1), 16.0 / 9.0, p2(k2)],
+            nfs: if f32_ { vec![(1.0, 2.0), (1.0, 1.0 + p2(-10)), (3.0, 3.0 + p2(-11)), (p2(-10), p2(10)), (0.1, 100.0)] } else { vec![(1.0, 2.0), (1.0, 1.0 + p2(-30)), (3.0, 3.0 + p2(-38)), (p2(-20), p2(20)), (0.1, 100.0)] },
+            epsilons: vec![0.0, 1.0 / 1024.0, p2(-60)] }
+    };
+    let fov_special_rule = |ty: &str, al: &FovFloatAlphabet| format!("element type {}, unscaled arguments only: fov in {:?} (rounded to {}: tan(fov/2) below eps_T and tan^2 below eps_T; the three floats around pi/2; steps of 2^-8,-14,-18 (f32) / 2^-10,-20,-30 (f64) and of one ulp on both sides of pi_T and pi_T itself (tan(fov/2) is huge but finite, every entry and every corner stays representable); the last floats below 2 pi_T, which the preconditions allow; 1; thorough: further steps towards pi/2, pi and 2 pi and further tiny fields of view, all in the list) x aspect (perspective_fov: width and height, aspect = width/height) in {:?} x (near, far) in {:?} (far/near down to 1 + 2^-39.6 (f64) / 1 + 2^-12.6 (f32) and up to 2^40 / 2^20) x epsilon in {:?} x 12 constructors x 2 layouts.  Checks (a) corners with |ndc - want| <= 256 eps_{} (sum|terms|/|w| + 1) and w > 0, (c) == frustum_* of the implied planes entrywise within 256 eps_{} relative, (d) lh == rh with column 2 negated and (e) layouts equal bit for bit, exactly as in the tier above.  one evaluation per corner / per matrix identity; non-trivial: all", ty, al.fovs, ty, al.aspects, al.nfs, al.epsilons, ty, ty);
+    { let al = mk_fov_special(false); rep.section("perspective family, f64 tier: special values of fov (0+, pi/2, pi, 2 pi-), aspect (1+-, 2^+-60) and far/near (1+, 2^40)", &fov_special_rule("f64", &al), true, false, |s| fov_float_tier::<f64>(s, &al)); }
+    { let al = mk_fov_special(true); rep.section("perspective family, f32 tier: special values of fov (0+, pi/2, pi, 2 pi-), aspect (1+-, 2^+-30) and far/near (1+, 2^20)", &fov_special_rule("f32", &al), true, false, |s| fov_float_tier::<f32>(s, &al)); }
 
     std::process::exit(rep.finish());
 }
